@@ -12,6 +12,14 @@ for f in L:
     what=re.sub(r'^fixed: property=\S+ \S+ ','',f['what'])
     rows.append('| %s | `%s` | %s |' % (f['property'], f.get('commit',''), what.replace('|','\\|')))
 fixed='\n'.join(rows)
+import glob as _g
+_rows=[]
+for f in sorted(_g.glob('/verif/seeded/benign_results/B*.log')):
+    ls=[l for l in open(f) if l.startswith('seed=')]
+    ok=sum(1 for l in ls if ' rc=0 ' in l)
+    bad=[l.split()[1].split('=')[1]+' '+l.split()[2] for l in ls if ' rc=0 ' not in l]
+    _rows.append('| %s | %d | %s |' % (f.split('/')[-1][:-4], ok, ', '.join(bad) or '-'))
+benign='Final run (all 20 quick checks per change):\n\n| change | checks silent | not silent |\n|---|---|---|\n'+'\n'.join(_rows) if _rows else '(final run pending)'
 seeds=open('/verif/seeded/RESULTS.md').read()
 seeds=seeds[seeds.index('| seed'):]
 props={json.loads(l)['id']:json.loads(l) for l in open('/verif/properties.jsonl')}
@@ -175,26 +183,51 @@ the SRT, WebVTT, SSA and STL reader loops; `2a237d5`: one line at the top of the
 
 %s
 
-201 changes were written by sub-agents that saw only property texts and a scratch worktree: 47 "plausible refactoring"
-seeds in five batches, 96 mutation-testing style changes in three batches (four per source file or area, including the
-command-line tool), 36 mutants aimed at one property each and 22 mutants of functions no earlier round had touched. 198
-of them break a property as stated and all 198 are caught by the quick tier (the CLI mutants by C07, which drives the
-tool). Three are not flagged, and should not be: C06-c is an equivalent change (it only merges two runs with
-identical attributes); P6-2 changes the character-set designation through X/28 packets, which the statement of C06
-does not cover and the specification does not model; R1-2 changes a helper (`WebVTTTimestampMap.Offset`) that nothing
-in the library calls and no statement mentions. About fifty of the 198 were missed or barely caught when first run (or
-would have been, judging from their description, and were pre-empted); every miss was answered by widening a
-*generator* or the *model* (never by loosening an oracle): new families (WebVTT N and K, TTML L and A, SSA I, teletext
-I and M), new rendering choices (per-row box patterns, comment-like and non-dialogue lines in SubStation files, inline
-timestamps without hours, text-like bytes in enhancement packets, prefixed TTML elements, a font tag with a leading
-attribute, a PCR on another time base), new value classes (33-bit MPEG-TS time stamps, tick counts beyond 32 bits,
-times beyond 24 h, full-width GSI and text fields, literal entity sequences, one-character runs, two-line text atoms,
-style names around "Default", file names with capitals), new observations (zero-valued reader options, Open with
-options, definitions stored under foreign map keys, the clock-default equivalence of the STL dates, a `bytes.Reader`
-reference delivery) and a systematic pass of every operation kind over 16 goroutines for C20. One of the sub-agents'
-remarks (the teletext reader cannot be driven through short reads) led to a genuine defect being found and repaired
-(`be3a749`). After each round all earlier changes were re-run (`seedtool.sh runcopy`, a scratch worktree selected
-through `VERIF_REPO`); the tables list the final state.
+241 property-breaking changes were written by sub-agents that saw only property texts and a scratch worktree: 47
+"plausible refactoring" seeds in five batches, 96 mutation-testing style changes in three batches (four per source file or
+area, including the command-line tool), 36 mutants aimed at one property each, 22 mutants of functions no earlier round
+had touched, and 40 "subtle" seeds that only show under rare conditions. 238 of them break a property as stated and all
+238 are caught by the quick tier (the CLI mutants by C07, which drives the tool). Three are not flagged, and should not
+be: C06-c is an equivalent change (it only merges two runs with identical attributes); P6-2 changes the handling of X/28
+format bits the statement of C06 does not cover (character-set *designation* through X/28 / M/29 is modelled since the
+sixth batch, family D); R1-2 changes a helper (`WebVTTTimestampMap.Offset`) that nothing in the library calls and no
+statement mentions. About seventy-five of the 238 were missed or barely caught when first run (or would have been, judging
+from their description, and were pre-empted) - 24 of the 40 subtle ones, which is what that batch was for; every miss
+was answered by widening a *generator* or the *model* (never by loosening an oracle, never by special-casing the seeded
+input): new families (WebVTT N and K, TTML L and A, SSA I, teletext I, M and D), new rendering choices (per-row box
+patterns, comment-like and non-dialogue lines in SubStation files, inline timestamps without hours, text-like bytes in
+enhancement packets, prefixed TTML elements, a font tag with a leading attribute, a PCR on another time base), new value
+classes (33-bit MPEG-TS time stamps, tick counts beyond 32 bits, times beyond 24 h, full-width GSI and text fields, literal
+entity sequences, one-character runs, two-line text atoms, style names around "Default", file names with capitals, cues
+without text, empty lines, texts that begin like block keywords, override blocks without text, sub-millisecond time units,
+cues before zero, slope 0, blank GSI fields, a programme start that is not a whole number of frames), new observations
+(zero-valued reader options, Open with options, definitions stored under foreign map keys or sharing an ID, a
+`bytes.Reader` reference delivery, faults whose error value is `io.ErrUnexpectedEOF`, a destination that exists already
+or cannot be written, a text identity of the harness's own instead of `Item.String`, alone-runs repeated in the opposite
+order and in fresh processes) and a systematic pass of every operation kind over 16 goroutines for C20. Remarks of
+sub-agents led to genuine defects being found and repaired: the teletext reader could not be driven through short reads
+(`be3a749`), `WriteToSSA` depended on map order for styles sharing an ID (`0f38ecf`), the teletext input wrapper spun on
+`io.ErrUnexpectedEOF` (`0ebbb2c`, `08027ad`). After each round earlier changes were re-run (`seedtool.sh runcopy`, a
+scratch worktree selected through `VERIF_REPO`); the tables list the final state.
+
+**Changes that must not be flagged.** 18 behaviour-preserving refactorings (B1-1 .. B6-3, three per group of source
+files, written by six further sub-agents with a differential test each) were run against all 20 quick checks. One false
+alarm was found (B4-3 on C17: the block-reader verdict depended on the wording of an error message; corrected, section 9).
+%s
+
+**Independent review of the `fix:` commits.** Two further sub-agents reviewed the 36 repairs made so far against the 20
+statements and had to demonstrate every suspicion by a failing test. Seven demonstrations: (1) `3878c0f` was wider than
+necessary - blank display standard code and country replaced by defaults, rows clamped (regression, C05; repaired
+`e15f046` after the C05 truths gained blank fields); (2) `7b014d6` added an unaligned programme start to the timecodes
+(C16; repaired `b0f63af` after the C16 driver gained STL lists with a programme start); (3) `WriteToSSA` panicked on a
+nil map entry and wrote a shared style name twice (C08 / C04; repaired `b94162c` after the shapes gained nil entries); (4) the `$`
+of STL, which is the open known finding; (5) `a078adb` makes a line of exactly 65535 bytes followed by CR LF fail with
+"token too long" where LF alone still fits - the reader needs one byte more than its buffer holds to decide, the statement of
+C18 lets a line that "exceeds what the reader can buffer" end in an error, and the alternative (counting that CR LF as
+two line breaks) is the defect `a078adb` repaired: left as it is, not a finding; (6) cue settings held by a *Style* are
+not written for a cue without inline attributes: no reader produces such a list and C02 speaks of documents and the cue
+lists they denote: not counted; (7) duplicate Style lines, see (3). The review found nothing in the teletext, TTML,
+Fragment, Optimize, Merge, WebVTT tag-nesting and scanner repairs beyond these.
 
 ### 10.7 Binding self-test
 
@@ -212,7 +245,7 @@ corrupted events, all rejected (`selftest_result.json`, 6 minutes).
 
 ---------------------------------------------------------------------------------------------------
 
-''' % (fixed, seeds, perprop)
+''' % (fixed, seeds, benign, perprop)
 s=s.replace('## Appendix A', sec+'## Appendix A',1)
 open(p,'w').write(s)
 print(len(rows))
